@@ -46,7 +46,8 @@ Definition stable (now : Z) (k : key) (m : mgr A) : Prop :=
   | Some to => forall t, In (k, t) (m_times m) -> t > now - to
   end.
 
-(* _time_added is sorted by time and has a stamp (k, added) for every entry *)
+(* _time_added is sorted by time, bounded by the clock, has a stamp (k, added) for every entry and no
+   stamp without its entry; cache_obj is a dictionary (one entry per key) *)
 Fixpoint sorted_times (l : list (key * Z)) : Prop :=
   match l with
   | [] => True
@@ -55,7 +56,9 @@ Fixpoint sorted_times (l : list (key * Z)) : Prop :=
 Definition timed_inv (now : Z) (m : mgr A) : Prop :=
   sorted_times (m_times m) /\
   (forall kt, In kt (m_times m) -> snd kt <= now) /\
-  (forall k d t, In (k, (d, t)) (m_entries m) -> In (k, t) (m_times m)).
+  (forall k d t, In (k, (d, t)) (m_entries m) -> In (k, t) (m_times m)) /\
+  (forall k t, In (k, t) (m_times m) -> exists d, In (k, (d, t)) (m_entries m)) /\
+  NoDup (map fst (m_entries m)).
 
 Definition user_calls_of (ids : list Z) (i : Z) (ev : list (event A)) : list (event A) :=
   filter (fun e => existsb (Z.eqb (ev_rid e)) ids && (ev_part e =? i)) ev.
